@@ -355,6 +355,22 @@ func checkC14(c ContractCase, r *rec.Rec) error {
 			return viol("%s with -o writes %q, expected %q", desc, got, want.out)
 		}
 	}
+	// 2b. an output file that cannot be written is an error (status 2)
+	res2u := runCLI(bin, append(append([]string{"-o=no-such-directory/out"}, flags...), "a", "b"), nil, dir)
+	if err := cliTrouble(res2u); err != nil {
+		return err
+	}
+	if res2u.Status != 2 {
+		return viol("%s with -o=no-such-directory/out exits %d (stdout %q): the output could not be written, which is an error (status 2)", desc, res2u.Status, res2u.Stdout)
+	}
+	// 2c. FILE2 named as a path that is a pipe
+	res2p := runCLI(bin, append(append([]string{}, flags...), "a", "/dev/stdin"), &bText, dir)
+	if err := cliTrouble(res2p); err != nil {
+		return err
+	}
+	if res2p.Status != res.Status || res2p.Stdout != res.Stdout {
+		return viol("%s: naming /dev/stdin (a pipe) as FILE2 gives status %d and %q, naming the file gives status %d and %q", desc, res2p.Status, res2p.Stdout, res.Status, res.Stdout)
+	}
 	// 3. second input from stdin
 	res3 := runCLI(bin, append(append([]string{}, flags...), "a"), &bText, dir)
 	if err := cliTrouble(res3); err != nil {
@@ -411,6 +427,15 @@ func checkC14(c ContractCase, r *rec.Rec) error {
 		}
 		if resPo.Status != 0 || resPo.Stdout != "" || readFileOr(dir, "pout") != wantP.out {
 			return pviol("%s with -o: status %d, stdout %q, file %q; expected the patched document %q in the file only", pdesc, resPo.Status, resPo.Stdout, readFileOr(dir, "pout"), wantP.out)
+		}
+		// patching in place: -o names the document that is being patched
+		writeFile(dir, "inplace", aText)
+		resPi := runCLI(bin, append(append([]string{"-p", "-o=inplace"}, flags...), "d", "inplace"), nil, dir)
+		if err := cliTrouble(resPi); err != nil {
+			return err
+		}
+		if resPi.Status != 0 || resPi.Stdout != "" || readFileOr(dir, "inplace") != wantP.out {
+			return pviol("%s with -o naming the patched document itself: status %d, stdout %q, file %q; expected the patched document %q in the file", pdesc, resPi.Status, resPi.Stdout, readFileOr(dir, "inplace"), wantP.out)
 		}
 		resPs := runCLI(bin, append(append([]string{"-p"}, flags...), "d"), &aText, dir)
 		if err := cliTrouble(resPs); err != nil {
@@ -589,7 +614,12 @@ func checkC14GitDiff(c ContractCase, r *rec.Rec) error {
 	defer cleanup()
 	writeFile(dir, "a", aText)
 	writeFile(dir, "b", bText)
-	want := c.libDiff(aText, bText)
+	lib := c
+	if c.Bin == "jd-top-v1" {
+		// the git diff driver only exists on top of the v2 library; -v2=false must not change what the other flags mean
+		lib.Bin = "jd-top"
+	}
+	want := lib.libDiff(aText, bText)
 	args := append(append([]string{"-git-diff-driver"}, flags...), "path", "a", "0123abc", "100644", "b", "4567def", "100644")
 	res := runCLI(bin, args, nil, dir)
 	if err := cliTrouble(res); err != nil {
@@ -627,9 +657,6 @@ func genC14(t *rapid.T) ContractCase {
 		c.Mode = "translate"
 	default:
 		c.Mode = "gitdiff"
-		if c.Bin == "jd-top-v1" {
-			c.Bin = "jd-top"
-		}
 	}
 	if c.Mode == "translate" {
 		c.Tr = gen.Pick(t, "tr", []string{"jd2patch", "patch2jd", "jd2merge", "merge2jd", "json2yaml", "yaml2json"})
